@@ -33,6 +33,9 @@ class Seam:
         self.violations = []  # ("use_after_close"|"double_close", call, fd name)
         self.raw_events = []  # every raw inotify event handed to the library (wd, mask, cookie, name)
         self._orig = {}
+        self.script = []  # scripted native batches (bytes) handed out instead of kernel data (C08)
+        self.script_fd = None
+        self.on_script_read = None
         self.root = None  # bytes: paths are logged relative to it (scratch directory names are random)
 
     def rel(self, path):
@@ -182,6 +185,8 @@ class Seam:
             for fd, b in self.rbuf.items():
                 if b and fd in pobj._fds and not any(f == fd for f, _ in res):
                     res = res + [(fd, _select.POLLIN)]
+            if self.script and self.script_fd in pobj._fds and not any(f == self.script_fd for f, _ in res):
+                res = res + [(self.script_fd, _select.POLLIN)]
             return bool(res)
 
         wake = None if timeout is None or timeout < 0 else s.now + timeout / 1000.0
@@ -232,6 +237,11 @@ class Seam:
         self._yield("read")
         if not self.on_fd_use("read", fd):
             raise OSError(errno.EBADF, "Bad file descriptor (shadow table)")
+        if self.script and fd == self.script_fd:
+            data = self.script.pop(0)
+            if self.on_script_read:
+                self.on_script_read(data)
+            return data
         buf = self.rbuf.get(fd, b"")
         # drain the kernel (non-blocking: only if readable)
         p = _select.poll()
